@@ -211,6 +211,10 @@ def gen_cases(seed, chunk, n, tier):
 
 
 def run(ctx):
+    from .. import tie
+
+    # translation tie: Lean definitions regenerated from /repo's source + equality theorems with the model
+    ctx.tie = tie.run_tie(ctx, tie.FUNCTIONS["C06"])
     n = 4000 if ctx.tier == "quick" else 30000
     stream.run_stream(ctx, "modes", "harness.props.c06", "gen_cases", n, per_chunk=50,
                       canon_kw=dict(drop_zero=True))
